@@ -251,6 +251,14 @@ class Check:
         if case_id in self.known_cases:
             fid = self.known_cases[case_id]
             return {'id': fid, 'what': self.known_cases_what.get(fid, '')}
+        if ' & ' in case_id and '/' in case_id:
+            # a two-field case '<base>/<a> & <b>': when one of its components is, on its own, a listed failing input, the pair is that finding again
+            # (the component alone already violates the property; the second deviation adds no information)
+            base, rest = case_id.split('/', 1)
+            for comp in rest.split(' & '):
+                fid = self.known_cases.get(base + '/' + comp)
+                if fid is not None:
+                    return {'id': fid, 'what': self.known_cases_what.get(fid, '')}
         for f in self.known:
             if 'case' in f and f['case'] == case_id:
                 return f
